@@ -341,12 +341,12 @@ def c02(prop, tier, seed, t0):
 
 def c03(prop, tier, seed, t0):
     scs, cov = with_g1(campaigns.campaign_c03(seed, tier), seed, tier, 300)
-    return responder_check(prop, tier, seed, t0, {"C03"}, scs, mc=[MC_IMPL], extra_cov=cov)
+    return responder_check(prop, tier, seed, t0, {"C03", "SNAP"}, scs, mc=[MC_IMPL], extra_cov=cov)
 
 
 def c05(prop, tier, seed, t0):
     scs, cov = with_g1(campaigns.campaign_c05(seed, tier), seed, tier, 1200, thorough_limit=None)   # thorough: every transition
-    return responder_check(prop, tier, seed, t0, {"C05"}, scs, mc=[MC_GENERAL, MC_IMPL], extra_cov=cov)
+    return responder_check(prop, tier, seed, t0, {"C05", "SNAP"}, scs, mc=[MC_GENERAL, MC_IMPL], extra_cov=cov)
 
 
 def c04(prop, tier, seed, t0):
@@ -376,13 +376,13 @@ def c04(prop, tier, seed, t0):
 
 def c06(prop, tier, seed, t0):
     scs, cov = with_g1(campaigns.campaign_c06(seed, tier), seed, tier, 400)
-    return responder_check(prop, tier, seed, t0, {"C06"}, scs, mc=[MC_GENERAL, MC_IMPL], extra_cov=cov)
+    return responder_check(prop, tier, seed, t0, {"C06", "SNAP"}, scs, mc=[MC_GENERAL, MC_IMPL], extra_cov=cov)
 
 
 def c07(prop, tier, seed, t0):
     scs, cov = with_g1(campaigns.campaign_c07(seed, tier), seed, tier, 1200, thorough_limit=None)   # thorough: every transition
     mc = [MC_GENERAL, MC_IMPL] + ([("ResponderLive.tla", "ResponderLive.cfg")] if tier == "thorough" else [])
-    return responder_check(prop, tier, seed, t0, {"C07"}, scs, mc=mc, extra_cov=cov)
+    return responder_check(prop, tier, seed, t0, {"C07", "SNAP"}, scs, mc=mc, extra_cov=cov)
 
 
 def c08(prop, tier, seed, t0):
@@ -393,7 +393,7 @@ def c09(prop, tier, seed, t0):
     import g1
     hists, info = g1.state_cover_histories(seed, limit=600 if tier == "quick" else None)
     scs = campaigns.campaign_c09(seed, tier) + campaigns.c09_from_histories(hists, seed)
-    return responder_check(prop, tier, seed, t0, {"C09", "EQ"}, scs, mc=[MC_GENERAL], extra_cov={"g1_state_cover": info})
+    return responder_check(prop, tier, seed, t0, {"C09", "EQ", "SNAP"}, scs, mc=[MC_GENERAL], extra_cov={"g1_state_cover": info})
 
 
 def c10(prop, tier, seed, t0):
